@@ -17,6 +17,9 @@ the execution counts as over:
                (pump_join.extract_pty).
   shell tool   run_command drives the two captures and child.wait() by ONE body-level tokio::join!, nothing
                bounded or detached (pump_join.extract_shell); capture_stream reads to end-of-stream.
+  runner       SessionEngine::new gives the shared ToolRunner a constant number of slots (literal), the runner's
+               semaphore is built from it: with >= 2 slots a read-only call finds one next to the mutating call
+               in progress (gen_runner_slots, obligation gen_runner_slots_ok)
   run_task     the guard is taken before the two run_*_task calls, both are awaited as they stand (not spawned,
                not wrapped in timeout / select!), the guard is not dropped before them.
 
@@ -140,6 +143,37 @@ def main():
                     miss(f"run_task: between the acquire and {call}: a spawn / bound / drop of the guard")
             notes.append(f"run_task: guard `{acq.group(1)}` taken before run_pipes_task / run_pty_task, both awaited in place")
 
+    # ---- the tool runner's own throttle: "read-only tools may overlap freely" needs a free slot next to the one
+    # mutating call that can be in progress: SessionEngine::new hands ToolRunner::with_checkpoint_hook a CONSTANT
+    # with a literal value, and the runner builds its semaphore from it (`.max(1)` at most raising it)
+    slots = 0
+    rsrc = read(a.repo, "crates", "ripd", "src", "runner.rs")
+    tsrc = read(a.repo, "crates", "rip-tools", "src", "runtime.rs")
+    if rsrc is None or tsrc is None:
+        miss("crates/ripd/src/runner.rs / crates/rip-tools/src/runtime.rs")
+    else:
+        calls = list(re.finditer(r"\bToolRunner::(?:with_checkpoint_hook|new)\s*\(", rsrc))
+        # test modules come after `#[cfg(test)]`
+        cut = rsrc.find("#[cfg(test)]")
+        calls = [m for m in calls if cut < 0 or m.start() < cut]
+        if len(calls) != 1:
+            miss(f"runner.rs: exactly one ToolRunner constructor call outside tests (found {len(calls)})")
+        else:
+            e = pj.match_close(rsrc, calls[0].end() - 1)
+            args = [x.strip() for x in rsrc[calls[0].end():e - 1].split(",") if x.strip()]
+            if len(args) < 2 or not re.fullmatch(r"[A-Z_][A-Z0-9_]*", args[1]):
+                miss(f"runner.rs: the runner's concurrency argument is not a constant ({args[1] if len(args) > 1 else '?'})")
+            else:
+                c = re.search(r"\bconst\s+" + args[1] + r"\s*:\s*usize\s*=\s*(\d+)\s*;", rsrc)
+                if not c:
+                    miss(f"runner.rs: `const {args[1]}: usize = <literal>;`")
+                else:
+                    slots = int(c.group(1))
+                    notes.append(f"runner slots: {args[1]} = {slots}")
+        body = fn_body(tsrc, "with_checkpoint_hook")
+        if body is None or not re.search(r"Semaphore::new\s*\(\s*max_concurrency(?:\s*\.\s*max\s*\(\s*\d+\s*\))?\s*\)", body):
+            miss("runtime.rs with_checkpoint_hook: `Semaphore::new(max_concurrency[.max(n)])`")
+
     def coq(w):
         return "[" + "; ".join(w) + "]"
 
@@ -159,10 +193,14 @@ def main():
         f"Definition gen_pty_task_waiter : list top := {coq(pty_w)}.",
         f"Definition gen_shell_tool_waiter : list top := {coq(tool_w)}.",
         "",
+        f"Definition gen_runner_slots : N := {slots}.",
+        "",
         "Lemma gen_lockjoin_found : gen_ok_lockjoin = true.",
         "Proof. vm_compute. reflexivity. Qed.",
         "Lemma gen_lockjoin_wf :",
         "  waiter_wf gen_pipes_task_waiter && waiter_wf gen_pty_task_waiter && waiter_wf gen_shell_tool_waiter = true.",
+        "Proof. vm_compute. reflexivity. Qed.",
+        "Lemma gen_runner_slots_ok : runner_wf gen_runner_slots = true.",
         "Proof. vm_compute. reflexivity. Qed.",
     ]
     os.makedirs(a.out, exist_ok=True)
